@@ -221,8 +221,8 @@ def brouwer(mm_revday, ecc, incl_deg):
 
 def threshold_fields(rng, kind=None):
     """Overrides (incl, ecc, mmotion) for a near-earth set whose model perigee (220 / 156 / 98 km) or period (225 min) lies
-    within a log-uniformly small distance of the threshold, on either side: the printed mean motion is located by bisection
-    on `brouwer` and then moved by 1e-8 ... 1e-3 rev/day (millimetres to hundreds of metres; 1e-7 ... 0.05 min)."""
+    within a log-uniformly distributed distance of the threshold, on either side: the printed mean motion is located by
+    bisection on `brouwer` and then moved by 1e-8 ... 0.1 rev/day (millimetres to tens of kilometres; 1e-7 ... 3 min)."""
     kind = kind or rng.choice(["perigee220", "perigee220", "period225", "period225", "perigee156", "perigee98"])
     incl = rng.choice([rng.uniform(1, 179), 98.0, 90.0, 10.0, 63.4349, 170.0, 51.6])
     if kind == "period225":
@@ -242,7 +242,8 @@ def threshold_fields(rng, kind=None):
             lo = mid
         else:
             hi = mid
-    mm = 0.5 * (lo + hi) + rng.choice([-1, 1]) * 10 ** rng.uniform(-8, -3 if kind != "period225" else -2)
+    # millimetres ... tens of kilometres (1e-8 ... 0.1 rev/day) / 1e-7 ... 3 min: bands of any plausible width around a limit
+    mm = 0.5 * (lo + hi) + rng.choice([-1, 1]) * 10 ** rng.uniform(-8, -1)
     return {"incl": "%8.4f" % incl, "ecc": "%07d" % e7, "mmotion": "%11.8f" % mm}, kind
 
 
